@@ -194,23 +194,24 @@ theorem le16_overlay_prefix (b old : Bytes) (m : Nat) (hb : WFBuf b) (ho : OldOK
 /-- `ReadLock` on a torn tail (`t` = the first `res` bytes of a record, 0 < res < 64, nothing after it): either
 "Lock Len error" (the tail straddles a buffer refill), or SUCCESS with a buffer made of the `res` new bytes followed by the
 old buffer's bytes `res..63`. Never io.EOF, never a clean stop. -/
-theorem readLock_torn (r : Rd) (b old : Bytes) (res : Nat) (hi : r.Inv) (hb : WFBuf b) (ho : OldOK old)
+theorem readLock_torn (r : Rd) (b : Bytes) (res : Nat) (hi : r.Inv) (hb : WFBuf b)
     (h0 : 0 < res) (h64 : res < 64) (hs : r.s = b.take res) :
-    readLock r old = .lenErr ∨
-    ∃ r', r'.s = [] ∧ r'.cap = r.cap ∧ r'.Inv ∧ readLock r old = .ok (b.take res ++ old.drop res) r' := by
+    (∀ old, OldOK old → readLock r old = .lenErr) ∨
+    ∃ r', r'.s = [] ∧ r'.cap = r.cap ∧ r'.Inv ∧ ∀ old, OldOK old → readLock r old = .ok (b.take res ++ old.drop res) r' := by
   have hbl := hb.length
   have hsl : r.s.length = res := by rw [hs]; simp; omega
   obtain ⟨m, r1, hr1, hm0, hmk, hms, hs1, hc1, hi1⟩ := read_some r 64 hi (by omega) (by omega)
   have htk : r.s.take m = b.take m := by rw [hs, List.take_take]; congr 1; omega
-  have hlen : le16 (overlay old 0 (r.s.take m)) 0 = 62 := by rw [htk]; exact le16_overlay_prefix b old m hb ho hm0
   have hne : ¬ m = 62 + 2 := by omega
-  unfold readLock
-  simp only [hr1, hlen, hne, if_false]
   by_cases hfull : m = res
   · right
     have hs1' : r1.s.length = 0 := by rw [hs1]; simp; omega
-    rw [read_none r1 (64 - m) hi1 (by omega) hs1']
     refine ⟨r1, by simpa using hs1', hc1, hi1, ?_⟩
+    intro old ho
+    have hlen : le16 (overlay old 0 (r.s.take m)) 0 = 62 := by rw [htk]; exact le16_overlay_prefix b old m hb ho hm0
+    unfold readLock
+    simp only [hr1, hlen, hne, if_false]
+    rw [read_none r1 (64 - m) hi1 (by omega) hs1']
     simp only
     congr 1
     unfold overlay
@@ -218,6 +219,10 @@ theorem readLock_torn (r : Rd) (b old : Bytes) (res : Nat) (hi : r.Inv) (hb : WF
     have : (b.take res).length = res := by simp; omega
     simp [this]
   · left
+    intro old ho
+    have hlen : le16 (overlay old 0 (r.s.take m)) 0 = 62 := by rw [htk]; exact le16_overlay_prefix b old m hb ho hm0
+    unfold readLock
+    simp only [hr1, hlen, hne, if_false]
     have hs1' : 0 < r1.s.length := by rw [hs1]; simp; omega
     obtain ⟨nn, r2, hr2, _, _, hnn, _, _, _⟩ := read_some r1 (64 - m) hi1 (by omega) hs1'
     rw [hr2]
